@@ -282,7 +282,7 @@ def test_strings(limit=120):
     import glob
 
     out = []
-    for p in sorted(glob.glob("/repo/tests/test_*.py")):
+    for p in sorted(glob.glob(common.REPO + "/tests/test_*.py")):
         try:
             tree = ast.parse(open(p).read())
         except Exception:
